@@ -45,6 +45,8 @@ T(srcs, dst, sync) == [srcs |-> srcs, dst |-> dst, sync |-> sync]
 Setup(id) ==
   CASE id = "inplace2"      -> [files |-> <<F(A), F(Bf)>>,            tasks |-> <<T(<<A>>, A, FALSE), T(<<Bf>>, Bf, FALSE)>>]
     [] id = "separate"      -> [files |-> <<F(A), F(Bf)>>,            tasks |-> <<T(<<A>>, OutA, FALSE), T(<<Bf>>, OutB, FALSE)>>]
+    [] id = "inplace3"      -> [files |-> <<F(A), F(Bf), F(Nn)>>,     tasks |-> <<T(<<A>>, A, FALSE), T(<<Bf>>, Bf, FALSE), T(<<Nn>>, Nn, FALSE)>>]
+    [] id = "mixed3"        -> [files |-> <<F(A), F(Bf), F(Nn)>>,     tasks |-> <<T(<<A>>, A, FALSE), T(<<Bf>>, OutB, FALSE), T(<<Nn>>, OutN, TRUE)>>]
     [] id = "bundle"        -> [files |-> <<F(A), F(Bf)>>,            tasks |-> <<T(<<A, Bf>>, Out, FALSE)>>]
     [] id = "bundleinplace" -> [files |-> <<F(A), F(Bf)>>,            tasks |-> <<T(<<A, Bf>>, Bf, FALSE)>>]
     [] id = "sync"          -> [files |-> <<F(A), F(Nn)>>,            tasks |-> <<T(<<A>>, OutA, FALSE), T(<<Nn>>, OutN, TRUE)>>]
@@ -218,9 +220,24 @@ Crash ==
   /\ fs' = [fs EXCEPT !.fds = <<>>]
   /\ UNCHANGED <<setup, nch, queue, faults>>
 
-Step(x) == \/ Take(x) \/ SameFileStep(x) \/ RenameToBak(x) \/ OpenIn(x) \/ OpenOut(x) \/ ReadSrc(x) \/ Minify(x)
-           \/ WriteChunk(x) \/ CloseIn(x) \/ CloseOut(x) \/ UnlinkBak(x) \/ UnlinkDst(x) \/ Restore(x) \/ Attrs(x)
-Next == (~crashed /\ \E x \in Workers : Step(x)) \/ Crash
+\* one named disjunct per system call of the code, so that TLC's coverage shows that each one is exercised
+Live(Act(_)) == ~crashed /\ \E x \in Workers : Act(x)
+ATake == Live(Take)
+ASame == Live(SameFileStep)
+ARename == Live(RenameToBak)
+AOpenIn == Live(OpenIn)
+AOpenOut == Live(OpenOut)
+ARead == Live(ReadSrc)
+AMinify == Live(Minify)
+AWrite == Live(WriteChunk)
+ACloseIn == Live(CloseIn)
+ACloseOut == Live(CloseOut)
+AUnlinkBak == Live(UnlinkBak)
+AUnlinkDst == Live(UnlinkDst)
+ARestore == Live(Restore)
+AAttrs == Live(Attrs)
+Next == \/ ATake \/ ASame \/ ARename \/ AOpenIn \/ AOpenOut \/ ARead \/ AMinify \/ AWrite \/ ACloseIn \/ ACloseOut
+        \/ AUnlinkBak \/ AUnlinkDst \/ ARestore \/ AAttrs \/ Crash
 Spec == Init /\ [][Next]_vars
 
 \* ---------------------------------------------------------------------------------------------------
